@@ -182,8 +182,8 @@ Proof.
     + replace (x + 1 - 1) with x by lia. reflexivity.
   - destruct k as [|k]; [exfalso; apply Hne; reflexivity|].
     rewrite inc_decimal_nines in Hi. injection Hi as <-.
-    change (49 :: repeat 48 (S k)) with ([] ++ 49 :: repeat 48 (S k)).
-    rewrite dec_decimal_borrow by lia. reflexivity.
+    assert (H := dec_decimal_borrow [] 49 (S k) ltac:(lia)).
+    cbn [app repeat] in H |- *. rewrite H. reflexivity.
 Qed.
 
 (* what the code does on digit strings that are not numerals: with leading zeros the
@@ -207,8 +207,8 @@ Proof.
     + replace (x + 1 - 1) with x by lia. reflexivity.
   - destruct k as [|k]; [exfalso; apply Hne; reflexivity|].
     rewrite inc_decimal_nines in Hi. injection Hi as <-.
-    change (49 :: repeat 48 (S k)) with ([] ++ 49 :: repeat 48 (S k)).
-    rewrite dec_decimal_borrow by lia. reflexivity.
+    assert (H := dec_decimal_borrow [] 49 (S k) ltac:(lia)).
+    cbn [app repeat] in H |- *. rewrite H. reflexivity.
 Qed.
 
 Theorem inc_dec_decimal_leading_zero_refuted k :
@@ -216,10 +216,10 @@ Theorem inc_dec_decimal_leading_zero_refuted k :
   dec_decimal (49 :: repeat 48 (S k)) = repeat 57 (S k).
 Proof.
   split.
-  - change (48 :: repeat 57 (S k)) with ([] ++ 48 :: repeat 57 (S k)).
-    rewrite inc_decimal_carry by lia. reflexivity.
-  - change (49 :: repeat 48 (S k)) with ([] ++ 49 :: repeat 48 (S k)).
-    rewrite dec_decimal_borrow by lia. reflexivity.
+  - assert (H := inc_decimal_carry [] 48 (S k) ltac:(lia)).
+    cbn [app repeat] in H |- *. rewrite H. reflexivity.
+  - assert (H := dec_decimal_borrow [] 49 (S k) ltac:(lia)).
+    cbn [app repeat] in H |- *. rewrite H. reflexivity.
 Qed.
 
 Example inc_dec_examples :
